@@ -356,6 +356,9 @@ class State:
     def alloc_set(self, contents=None, prefix='set'):
         r = self.alloc(prefix, 'set')
         self.set_elems(r, EMPTY if contents is None else contents)
+        if '$setrole' in GHOST_FIELDS:
+            # a fresh set object is not (yet) the required/_s_successors/jobs container of anything
+            self.setf('$setrole', r, z3.IntVal(0))
         return r
 
     def alloc_list(self, prefix='list', cls='list'):
